@@ -427,6 +427,16 @@ func (x *Exec) evalCall(e *ast.CallExpr, st *State) (Value, types.Type) {
 		}
 		if x.con != nil && x.con.Opts["fn-values"] == "pure" {
 			if rt := x.typeOf(e); rt != nil {
+				if _, isTuple := rt.(*types.Tuple); !isTuple && x.sortOf(rt) == SBool {
+					// predicates held in tables (opPredicates): pure functions of the value and the argument
+					args, _ := x.evalArgs(e.Args, st)
+					ts := []Term{asTerm(fv)}
+					for _, a := range args {
+						ts = append(ts, asTerm(a))
+					}
+					x.noteAssume("predicate values applied in this unit are pure functions of the predicate and its argument")
+					return x.uf(fmt.Sprintf("applypred%d", len(ts)), SBool, ts...), rt
+				}
 				if _, isTuple := rt.(*types.Tuple); !isTuple && x.sortOf(rt) == SInt {
 					// value functions (genValue results) are lookups: the same function applied to the same
 					// frame yields the same handle
@@ -1270,8 +1280,10 @@ func (x *Exec) evalSpecCall(e *ast.CallExpr, st *State) (Value, types.Type) {
 			}
 		}
 	}
-	if x.con != nil && x.con.Opts["fn-values"] == "pure" {
-		// applying a function-typed program expression (captured local, slice element): pure lookup
+	_, funIsIndex := e.Fun.(*ast.IndexExpr)
+	if (x.con != nil && x.con.Opts["fn-values"] == "pure") || funIsIndex {
+		// applying a function-typed program expression (captured local, slice or map element): pure lookup
+		// (a specification applies function values only as mathematical functions)
 		if _, isCall := e.Fun.(*ast.CallExpr); !isCall {
 			isSpec := false
 			if id, ok := e.Fun.(*ast.Ident); ok {
@@ -1298,6 +1310,9 @@ func (x *Exec) evalSpecCall(e *ast.CallExpr, st *State) (Value, types.Type) {
 								ts := []Term{t}
 								for _, a := range args {
 									ts = append(ts, asTerm(a))
+								}
+								if x.sortOf(sig.Results().At(0).Type()) == SBool {
+									return x.uf(fmt.Sprintf("applypred%d", len(ts)), SBool, ts...), sig.Results().At(0).Type()
 								}
 								app := x.uf(fmt.Sprintf("applyfn%d", len(ts)), SInt, ts...)
 								if !x.underBinder(app.S) {
